@@ -490,6 +490,61 @@ def run_hdf5(args, workdir):
     return hdf5_case(np.random.default_rng(args["seed"]), workdir, args["n"], args["ntask"], args["multi"], args["op"], args["lkind"])
 
 
+def alias_case(rng, n, ntask, ints):
+    """Values delivered through ONE reused mutable buffer: StatCalculator fed directly, and
+    sample_stat(op) with a callable that writes its output into a reused array."""
+    import nifty.cl as ift
+    dom = ift.RGSpace(3)
+    if ints:
+        data = rng.integers(-50, 50, size=(n, 3)).astype(np.float64)
+    else:
+        data = rng.normal(size=(n, 3)) * 10.0 ** rng.integers(-3, 4, size=(1, 3))
+    out = {"data": data.tolist(), "n": n}
+    try:
+        buf = np.zeros(3)
+        sc = ift.StatCalculator()
+        for x in data:
+            buf[...] = x
+            sc.add(buf)
+        out["direct"] = ["ok", [np.array(sc.mean).tolist(), (np.array(sc.var).tolist() if n > 1 else [0.0] * 3)]]
+    except BaseException as e:  # noqa
+        out["direct"] = ["exc", exc_class(e)]
+    parts = split_random(rng, list(range(n)), ntask)
+    out["parts"] = parts
+
+    def fn(comm):
+        rank = 0 if comm is None else comm.Get_rank()
+        sl = ift.SampleList([ift.Field.from_raw(dom, data[i].copy()) for i in parts[rank]], comm=comm, domain=dom)
+        mybuf = np.zeros(3)
+
+        def op(ss):
+            mybuf[...] = 2.0 * ss.asnumpy()
+            return mybuf
+        m, v = sl.sample_stat(op)
+        return [np.array(m).tolist(), np.array(v).tolist()]
+    out["viaop"] = run_tasks(ntask, fn) if n > 1 else []
+    return out
+
+
+def alias_failure(o):
+    d = np.array(o["data"])
+    n = d.shape[0]
+    tol = 1e-11 * (1.0 + np.abs(d).max() ** 2) * 4
+    wm, wv = d.mean(axis=0), (d.var(axis=0, ddof=1) if n > 1 else np.zeros(3))
+    if o["direct"][0] != "ok":
+        return "StatCalculator fed through a reused buffer raised %s" % o["direct"][1]
+    m, v = (np.array(x) for x in o["direct"][1])
+    if np.abs(m - wm).max() > tol or np.abs(v - wv).max() > tol:
+        return "StatCalculator fed through a reused buffer: mean/var %r differ from the statistics of the values added %r" % ([m.tolist(), v.tolist()], [wm.tolist(), wv.tolist()])
+    for r in o["viaop"]:
+        if r[0] != "ok":
+            return "sample_stat(op writing into a reused buffer) raised %s" % r[1]
+        m, v = (np.array(x) for x in r[1])
+        if np.abs(m - 2 * wm).max() > tol or np.abs(v - 4 * wv).max() > tol:
+            return "sample_stat(op writing into a reused buffer): %r differ from the statistics of the operator outputs %r" % ([m.tolist(), v.tolist()], [(2 * wm).tolist(), (4 * wv).tolist()])
+    return None
+
+
 def stat_failure(o):
     if any(r[0] != "ok" for r in o["res"]):
         return "sample_stat / average raised: %r" % [r for r in o["res"] if r[0] != "ok"][:1]
@@ -534,6 +589,7 @@ class C26(C.Check):
         self.hist = []
         self.stats = []
         self.h5 = []
+        self.alias = []
 
     def translate(self, ctx):
         from tr import c26_gen
@@ -578,6 +634,26 @@ class C26(C.Check):
                 xs = C.clist([C.cfloat(row[px]) for row in o["data"]])
                 checks.append("stat_ok %s %s %s && avg_ok %s %s" % (xs, C.cfloat(m[px]), C.cfloat(v[px]), xs, C.cfloat(a[px])))
                 where.append(("stat", i, px))
+        # values delivered through reused buffers (aliasing), bit for bit
+        self.alias = []
+        na = 8 if ctx.quick else 60
+        for i in range(na):
+            n = int(rng.integers(1, 8))
+            o = alias_case(rng, n, int(rng.integers(1, 4)), ints=(i % 2 == 0))
+            self.alias.append(o)
+            obs = [o["direct"]] + ([o["viaop"][0]] if o["viaop"] else [])
+            for which, r in enumerate(obs):
+                if r[0] != "ok":
+                    checks.append("false")
+                    where.append(("alias", i, which))
+                    continue
+                fac = 1.0 if which == 0 else 2.0
+                if o["n"] == 1:
+                    continue        # a single value: var raises (direct) -- nothing to compare bit for bit
+                for px in range(3):
+                    xs = C.clist([C.cfloat(fac * row[px]) for row in o["data"]])
+                    checks.append("stat_ok %s %s %s" % (xs, C.cfloat(r[1][0][px]), C.cfloat(r[1][1][px])))
+                    where.append(("alias", i, which))
         # HDF5 export / sample_stat(op) / average(op): every flag combination, identity, linear and
         # non-linear operators; bit for bit against the model fed with the operator outputs that
         # the export itself wrote (samples group of the all-flags file)
@@ -648,7 +724,7 @@ class C26(C.Check):
             "samples": [{"history": self.hist[k][0]} for k in range(min(2, len(self.hist)))],
             "input_distribution": {"histories": len(self.hist), "steps": nsteps, "step_outcomes": kinds,
                                    "stat_cases": ns, "shareRange_cases": nsr,
-                                   "hdf5_cases": nh5, "hdf5_ops": sorted({a["op"] for _, a in self.h5}),
+                                   "alias_cases": na, "hdf5_cases": nh5, "hdf5_ops": sorted({a["op"] for _, a in self.h5}),
                                    "hdf5_exports": nh5 * len(FLAGS)},
             "disagreements": len(bad), "exhaustive": False,
         })
@@ -667,6 +743,11 @@ class C26(C.Check):
             f = stat_failure(o)
             if f:
                 res.add_failing({"fn": "sample_stat/average"}, f, {"kind": "stat", "data": o["data"], "parts": o["parts"]})
+        for o in self.alias:
+            n += 1
+            f = alias_failure(o)
+            if f:
+                res.add_failing({"fn": "StatCalculator/sample_stat", "input": "reused-buffer"}, f, {"kind": "alias", "data": o["data"], "parts": o["parts"]})
         rng = ctx.rng(2626)
         for o, args in self.h5:
             n += 1
@@ -710,6 +791,17 @@ class C26(C.Check):
             return bool(direct_failures(i["history"], steps))
         if i["kind"] == "hdf5":
             return hdf5_failure(run_hdf5(i, os.path.join(ctx.run_dir(), "replay_h5_p%d" % os.getpid()))) is not None
+        if i["kind"] == "alias":
+            data = np.array(i["data"])
+
+            class _R:          # replays the stored value sequence and distribution
+                def __init__(self):
+                    self.k = 0
+                def integers(self, lo, hi, size=None):
+                    if size == (data.shape[0], 3):
+                        return data
+                    return np.sort(np.array([sum(len(p) for p in i["parts"][:j + 1]) for j in range(len(i["parts"]) - 1)], dtype=int))
+            return alias_failure(alias_case(_R(), data.shape[0], len(i["parts"]), ints=True)) is not None
         if i["kind"] == "stat":
             import nifty.cl as ift
             dom = ift.RGSpace(3)
